@@ -54,6 +54,7 @@ def main():
     for d in (clean, mut):
         os.makedirs(d)
         shutil.copytree("/repo/wannierberri", os.path.join(d, "wannierberri"), ignore=shutil.ignore_patterns("__pycache__"))
+        os.symlink("/repo/tests", os.path.join(d, "tests"))     # some demonstrations read the repository's test data
     try:
         rc, out, _ = run(["patch", "-p1", "-d", mut, "-i", patch])
         ev["patch_applies"] = (rc == 0)
